@@ -115,6 +115,14 @@ def finish(ctx, level="other", extra_cov=None, trusted=None, checker_cmd=None):
     if os.path.realpath(ctx.repo) != "/repo":
         # runs on scratch copies (controls, mutants) must not overwrite the evidence of the real tree
         evid = os.path.join(V, ".cache", "scratch-evidence", "%d" % os.getpid())
+        try:  # keep the scratch evidence of the last 40 runs only
+            base = os.path.dirname(evid)
+            old = sorted((d for d in os.listdir(base)), key=lambda d: os.path.getmtime(os.path.join(base, d)))[:-40]
+            import shutil
+            for d in old:
+                shutil.rmtree(os.path.join(base, d), ignore_errors=True)
+        except OSError:
+            pass
     os.makedirs(os.path.join(evid, "violations"), exist_ok=True)
     opens, _fixed = load_known()
     real = []
